@@ -121,6 +121,7 @@ type PortMod struct {
 
 func NewPortMod(port int) *PortMod {
 	p := new(PortMod)
+	p.Header = NewOfp13Header()
 	p.Header.Type = Type_PortMod
 	p.PortNo = uint32(port)
 	p.HWAddr = make([]byte, ETH_ALEN)
